@@ -259,7 +259,7 @@ def plan(tier):
 
 def run_part(part, seed, shard, nshards, budget):
     strat, fn = PARTS[part]
-    return hyp.search(strat(), fn, budget["n_examples"], seed, part)
+    return hyp.search(strat(), fn, budget["n_examples"], seed, part, skip_zero=(part == "stat"))
 
 
 def replay(part, case):
